@@ -45,6 +45,11 @@ const (
 )
 
 func (f *FIXUTCTimestamp) Read(bytes []byte) (err error) {
+	// time.Parse also accepts a comma before the fractional seconds, FIX does not.
+	if len(bytes) > 17 && bytes[17] != '.' {
+		return errors.New("Invalid Value for Timestamp: " + string(bytes))
+	}
+
 	switch len(bytes) {
 	// Seconds.
 	case 17:
